@@ -22,6 +22,7 @@ type Obligation struct {
 	Goal    string
 	Func    string
 	Ground  bool
+	Group   int // obligations of the same group share their assumptions (same path end)
 	// filled by the solver driver
 	Status string
 	Solver string
@@ -60,6 +61,7 @@ type VC struct {
 	extraAxioms    []string
 	curFrame       *Frame
 	heapSorts      map[string]string
+	groupCtr       int
 	folds          map[string]*foldInst
 	foldOrder      []string
 	siteOrd        map[ssa.Instruction]int
@@ -517,6 +519,29 @@ func (ex *Exec) where() string {
 	}
 	pos := ex.vc.prog.fset.Position(ex.cur.Pos())
 	if !pos.IsValid() {
+		// nearest earlier instruction of the block with a position
+		if b := ex.cur.Block(); b != nil {
+			idx := -1
+			for i, in := range b.Instrs {
+				if in == ex.cur {
+					idx = i
+				}
+			}
+			for i := idx - 1; i >= 0; i-- {
+				if p2 := ex.vc.prog.fset.Position(b.Instrs[i].Pos()); p2.IsValid() {
+					pos = p2
+					break
+				}
+				if v, ok := b.Instrs[i].(*ssa.DebugRef); ok {
+					if p2 := ex.vc.prog.fset.Position(v.Expr.Pos()); p2.IsValid() {
+						pos = p2
+						break
+					}
+				}
+			}
+		}
+	}
+	if !pos.IsValid() {
 		if ex.cur.Parent() != nil {
 			return ex.cur.Parent().Name()
 		}
@@ -914,6 +939,9 @@ func (ex *Exec) instr(fr *Frame, ins ssa.Instruction, pred *ssa.BasicBlock, st *
 				r := vc.newRef(st, x.Comment)
 				vc.writeStruct(st, r, es, vc.sorts.Zero(es))
 				fr.vals[x] = Val{K: VPtr, P: &Ptr{Kind: PRef, Ref: r, SSort: es, Typ: et}}
+				if x.Comment != "" && x.Comment != "complit" {
+					st.named = append(st.named, namedRef{x.Comment, fr.id, r, x.Type()})
+				}
 				return true
 			}
 		}
@@ -942,9 +970,6 @@ func (ex *Exec) instr(fr *Frame, ins ssa.Instruction, pred *ssa.BasicBlock, st *
 		}
 		// keep structural values (pointers to cells, closures) in cells
 		if (v.K == VPtr || v.K == VClosure) && p.Kind == PCell && len(p.Path) == 0 && !p.Cell.boxed {
-			if v.K == VPtr && (isBigInt(types.Unalias(v.P.Typ)) || isBigRat(types.Unalias(v.P.Typ))) {
-				v = tv(ex.materialize(st, v.P))
-			}
 			ex.store(st, p, v)
 			return true
 		}
